@@ -32,7 +32,7 @@ LEVEL_NOTE = ('Exhaustive over relative placements on the small lattice only; la
 RULE = ("lattice: cases = (filter node subset, storage order), executions = response assignments x SED grids; irregular/object/package: one case per configuration; "
         "non-trivial = distinct (filter, SED grid) pairs whose overlap is non-empty and whose filter has a non-zero response")
 ASSUMPTIONS = ["non-negative responses, strictly positive distinct frequencies", "lattice exhaustive; beyond it a finite seed-derived family"]
-REQUIRED_CLASSES = ['bin-edge-on-filter-end', 'several-nodes-in-one-bin', 'filter-decreasing-nu', 'sed-decreasing-nu', 'partial-overlap-low', 'partial-overlap-high',
+REQUIRED_CLASSES = ['package-of-100-models-and-100-wavelengths', 'integer-response', 'filter-file-overwritten-and-read-again', 'bin-edge-on-filter-end', 'several-nodes-in-one-bin', 'filter-decreasing-nu', 'sed-decreasing-nu', 'partial-overlap-low', 'partial-overlap-high',
                     'filter-outside-sed', 'empty-bin', 'normalized-flat', 'linearity', 'file-filter', 'pkg-v1', 'pkg-v2', 'pkg-errors', 'irregular', 'seds-with-different-grids', 'filter-nu-in-other-unit', 'two-filters-one-response-array']
 TIMEOUT = {'quick': 600, 'thorough': 3000}
 
@@ -66,6 +66,11 @@ def setup(tier, seed):
                         if fmt == 'v1':
                             for g in ('interior', 'interior+length'):
                                 out.append({'fam': 'package', 'fmt': fmt, 'sord': sord, 'n_ap': n_ap, 'memmap': memmap, 'rep': rep, 'grids': g})
+    # scale: a hundred models (cube blocks, row indices) on spectra of a hundred points
+    for fmt in ('v1', 'v2'):
+        for sord in (1, -1):
+            for memmap in ((True, False) if fmt == 'v2' else (False,)):
+                out.append({'fam': 'package', 'fmt': fmt, 'sord': sord, 'n_ap': 3 if sord == 1 else 1, 'memmap': memmap, 'rep': 0, 'scale': (100, 100) if tier == 'quick' else (300, 150)})
     return {'tier': tier, 'seed': seed, 'cases': out}
 
 
@@ -330,6 +335,40 @@ def _object(ctx, case, rec, d):
     rec.cls('linearity')
     if fb.name != f.name or fb.central_wavelength != f.central_wavelength:
         rec.violation('rebin|metadata', sub, {})
+    # ---- a response given as whole numbers (per cent, or a 0/1 top-hat), not normalised: R_i are still exact integrals
+    for resp_i in (np.array([0, 100, 80, 60, 0]), np.array([0, 1, 1, 1, 0]), np.array([3, 7, 2], dtype=np.int32)):
+        nn = np.sort(rng.uniform(lo, hi, len(resp_i)))
+        fi = _F() if False else Filter()
+        fi.name = 'INT'
+        fi.central_wavelength = 2.0 * u.micron
+        fi.nu = nn * u.Hz
+        fi.response = resp_i
+        sgrid = np.unique(np.r_[lo * 0.5, rng.uniform(lo * 0.6, hi * 1.2, 6), hi * 1.5])
+        Ri, _, toti = convref.rebin_exact([Fr(float(x)) for x in nn], [Fr(int(y)) for y in resp_i], sgrid)
+        try:
+            ri = np.asarray(fi.rebin(sgrid * u.Hz).response, float)
+        except Exception as e:
+            rec.violation('rebin|exception|%s' % type(e).__name__, dict(sub, response='integers'), {'msg': str(e)[:200]})
+            continue
+        rec.ev()
+        rec.trans()
+        rec.cls('integer-response')
+        scale_i = max(abs(float(x)) for x in Ri) or 1.0
+        if max(abs(float(Ri[j]) - ri[j]) for j in range(len(sgrid))) > 1e-11 * scale_i:
+            rec.violation('rebin|value|integer-response', dict(sub, response=[int(x) for x in resp_i]), {'got': ri[:8], 'exact': [float(x) for x in Ri[:8]]})
+        elif abs(float(np.sum(ri)) - float(toti)) > 1e-10 * abs(float(toti)):
+            rec.violation('rebin|sum', dict(sub, response='integers'), {'sum_R': float(np.sum(ri)), 'integral_over_overlap': float(toti)})
+    # ---- the filter file is replaced by another curve under the same name and read again
+    wav2 = np.sort(rng.uniform(1.2, 2.6, 4))
+    resp2 = rng.uniform(0.2, 0.9, 4)
+    pkgwriter.write_filter_file(path, wav2, resp2, 1.9)
+    f2 = Filter.read(path)
+    rec.ev()
+    rec.trans()
+    rec.cls('filter-file-overwritten-and-read-again')
+    if len(f2.nu) != 4 or not np.allclose(f2.nu.to(u.Hz).value, pkgwriter.C_M_S / (wav2 * 1e-6), rtol=1e-12) or not np.array_equal(np.asarray(f2.response), resp2) \
+            or abs(f2.central_wavelength.to(u.micron).value - 1.9) > 1e-12:
+        rec.violation('filter-read|columns', dict(sub, second_read_of_same_path=True), {'nu': f2.nu.to(u.Hz).value[:4], 'expected_wav': wav2})
     # ---- two in-memory filters built from ONE response array (same instrument curve on two frequency grids): normalising the
     # second must not disturb the first
     from sedfitter.filter import Filter as _F
@@ -364,18 +403,20 @@ def _package(ctx, case, rec, d):
     seed = ctx['seed']
     rng = np.random.default_rng(seed * 31 + case['rep'] * 5 + case['n_ap'])
     fmt, sord, n_ap = case['fmt'], case['sord'], case['n_ap']
-    n_models, n_wav = 3, 9
+    n_models, n_wav = case.get('scale', (3, 9))
     wav = np.sort(rng.uniform(0.8, 30.0, n_wav))[::-1]            # decreasing wavelength = increasing frequency
     if sord == -1:
         wav = wav[::-1]
-    names = ['sed_b', 'sed_c', 'sed_a']
+    names = ['sed_b', 'sed_c', 'sed_a'] + ['sed_%05d' % ((i * 7919 + 13) % 100003) for i in range(3, n_models)]
+    if n_models > 64:
+        rec.cls('package-of-100-models-and-100-wavelengths')
     ap = None if n_ap == 1 else np.array([100.0, 1000.0, 10000.0])[:n_ap]
     flux = rng.uniform(1.0, 10.0, (n_models, n_ap, n_wav))
     err = flux * rng.uniform(0.01, 0.2, (n_models, n_ap, n_wav))
     md = os.path.join(d, 'pkg')
     os.makedirs(md)
     pkgwriter.write_conf(md, n_ap > 1, version=1 if fmt == 'v1' else 2)
-    pkgwriter.write_parameters(md, names, {'par1': [1.0, 2.0, 3.0]})
+    pkgwriter.write_parameters(md, names, {'par1': list(np.arange(n_models) + 1.0)})
     wav_of = [wav] * n_models
     if fmt == 'v1' and case.get('grids', 'same') != 'same':
         # per-file SEDs need not share a grid: same length and same end points but other interior points,
@@ -406,7 +447,10 @@ def _package(ctx, case, rec, d):
     f1y = rng.uniform(0.2, 1.0, 6)
     f2x = np.sort(np.r_[hi * 0.6, rng.uniform(hi * 0.6, hi * 1.4, 4), hi * 1.4])
     f2y = rng.uniform(0.2, 1.0, 6)
-    filters = [_mkfilter(f1x, f1y, 'FA', 3.0), _mkfilter(f2x, f2y, 'FB', 1.2)]
+    # a third one reaching beyond the low-frequency (long-wavelength) end of the spectra
+    f3x = np.sort(np.r_[lo * 0.4, rng.uniform(lo * 0.4, lo * 1.8, 3), lo * 1.8])[::-1]
+    f3y = rng.uniform(0.2, 1.0, 5)
+    filters = [_mkfilter(f1x, f1y, 'FA', 3.0), _mkfilter(f2x, f2y, 'FB', 1.2), _mkfilter(f3x, f3y, 'FC', 20.0)]
     filters[0].normalize()
     kw = {} if fmt == 'v1' else {'memmap': case['memmap']}
     try:
@@ -418,7 +462,7 @@ def _package(ctx, case, rec, d):
         return
     nu_inc = np.sort(nu)
     order = np.argsort(nu)
-    for f, (fx, fy) in zip(filters, ((f1x, np.asarray(filters[0].response)), (f2x, f2y))):
+    for f, (fx, fy) in zip(filters, ((f1x, np.asarray(filters[0].response)), (f2x, f2y), (f3x, f3y))):
         R, over, tot = convref.rebin_exact(fx, fy, nu_inc)
         Rf = np.array([float(x) for x in R])
         per_model = None
